@@ -84,15 +84,57 @@ def _fix_ticket_lengths():
         pass
 
 
+import datetime as _real_datetime_mod
+
+
+class _SimDateTime(_real_datetime_mod.datetime):
+    """datetime whose now()/utcnow() read the (patched) time.time: the wall clock of the
+    simulation, so that "a year later" is an ordinary jump of the virtual clock."""
+
+    @classmethod
+    def now(cls, tz=None):
+        return _real_datetime_mod.datetime.fromtimestamp(time.time(), tz)
+
+    @classmethod
+    def utcnow(cls):
+        return _real_datetime_mod.datetime.fromtimestamp(time.time(), _real_datetime_mod.timezone.utc
+                                                         ).replace(tzinfo=None)
+
+
+class _SimDateTimeModule:
+    datetime = _SimDateTime
+
+    def __getattr__(self, name):
+        return getattr(_real_datetime_mod, name)
+
+
+_DT_SHIM = _SimDateTimeModule()
+# library modules that stamp rows / compare validity with the wall clock via `datetime.datetime.now`
+_WALL_CLOCK_USERS = ("nauyaca.security.tofu",)
+
+
 @contextlib.contextmanager
 def patched_time(net: SimNet):
     time.time = lambda: EPOCH + net.now
     time.monotonic = lambda: net.now
+    swapped = []
+    for name in _WALL_CLOCK_USERS:
+        m = sys.modules.get(name)
+        if m is None:
+            try:
+                m = __import__(name, fromlist=["x"])
+            except Exception:
+                m = None
+        if m is not None and getattr(m, "datetime", None) is _real_datetime_mod:
+            m.datetime = _DT_SHIM
+            swapped.append(m)
     try:
         yield
     finally:
         time.time = _real_time
         time.monotonic = _real_monotonic
+        for m in swapped:
+            m.datetime = _real_datetime_mod
 
 
 _scratch_root = None
